@@ -377,11 +377,12 @@ func setCase(hseed uint64) {
 		j         uint64
 		fail      bool
 		cancel    bool
+		panics    bool // the fetch function panics (the caller recovers outside Set)
 	}
 	calls := make([]call, n)
 	h0, k0 := common.Pick(r, hosts), common.Pick(r, keys)
 	for i := range calls {
-		calls[i] = call{host: h0, key: k0, scheme: common.Pick(r, []auth.Scheme{auth.SchemeBearer, auth.SchemeBearer, auth.SchemeBasic}), j: r.U64(), fail: r.Chance(1, 8), cancel: r.Chance(1, 6)}
+		calls[i] = call{host: h0, key: k0, scheme: common.Pick(r, []auth.Scheme{auth.SchemeBearer, auth.SchemeBearer, auth.SchemeBasic}), j: r.U64(), fail: r.Chance(1, 8), cancel: r.Chance(1, 6), panics: r.Chance(1, 10)}
 		if r.Chance(1, 3) {
 			calls[i].host = common.Pick(r, hosts)
 		}
@@ -408,6 +409,13 @@ func setCase(hseed uint64) {
 		wg.Add(1)
 		go func(i int, c call) {
 			defer wg.Done()
+			defer func() {
+				if rec := recover(); rec != nil && !c.panics {
+					mu.Lock()
+					fails = append(fails, violation{"set-unexpected-panic", fmt.Sprintf("Set(%q, %v, %q) panicked: %v", c.host, c.scheme, c.key, rec)})
+					mu.Unlock()
+				}
+			}()
 			<-start
 			if !tight {
 				jitter(c.j)
@@ -426,6 +434,9 @@ func setCase(hseed uint64) {
 				}
 				if ctx.Err() != nil {
 					return "", ctx.Err()
+				}
+				if c.panics {
+					panic(fmt.Sprintf("fetch %d blew up", i))
 				}
 				if c.fail {
 					return "", fmt.Errorf("fetch %d failed", i)
